@@ -220,6 +220,79 @@ pub fn c19_precreate(res: &mut WorkerResult) -> Vec<(String, String)> {
     out
 }
 
+/// First-time initialisation WITH a pre-created tree, really killed (child process, `_exit`) before selected calls: the first
+/// and last mkdirs, some in the middle and every call after the mkdir loop. The next open with the same configuration must
+/// succeed, the stored "pre-created" flag must be truthful (all 65,536 leaf directories exist if it says so) and puts into
+/// several different shard directories must work.
+pub fn c19_precreate_crash(part: (u64, u64), res: &mut WorkerResult) -> Vec<(String, String)> {
+    use std::process::Command;
+    let mut out = Vec::new();
+    let exe = std::env::current_exe().unwrap();
+    let cfg = Cfg { n: 3, async_mode: false };
+    let run_child = |dir: &Path, k: u64| -> (Option<i32>, String) {
+        let o = Command::new(&exe).args(["kill-child", dir.to_str().unwrap(), "3", "false", "[]", &k.to_string(), "pre"]).output().expect("spawn");
+        (o.status.code(), String::from_utf8_lossy(&o.stdout).into_owned())
+    };
+    let d0 = util::fresh_dir("prec");
+    let (_, so) = run_child(&d0, 0);
+    util::rm_rf(&d0);
+    let total: u64 = so.lines().find_map(|l| l.strip_prefix("CALLS ")).and_then(|x| x.trim().parse().ok()).unwrap_or(0);
+    if total < 65_000 {
+        out.push(("precreate-crash-setup".into(), format!("a pre-creating first open made only {total} mutating calls")));
+        return out;
+    }
+    // mkdir(root), mkdir(staging), mkdir(cas), open(LOCK) come first; then 65,792 mkdirs; then the settings file and the rest
+    let mut cuts: Vec<u64> = (1..=8).collect();
+    cuts.extend([300, 20_000, 65_000, 65_700]);
+    cuts.extend((65_780..=total).collect::<Vec<u64>>());
+    cuts.sort();
+    cuts.dedup();
+    for (ci, k) in cuts.into_iter().enumerate() {
+        if k > total || ci as u64 % part.1 != part.0 {
+            continue;
+        }
+        res.count("cases", 1);
+        let dir = util::fresh_dir("prec");
+        let (code, _) = run_child(&dir, k);
+        if code != Some(99) {
+            out.push(("precreate-crash-child".into(), format!("child for k={k} exited with {code:?}")));
+            util::rm_rf(&dir);
+            continue;
+        }
+        let conf = Config { pre_create_cas_dirs: true, ..cfg.config() };
+        let desc = format!("first-time initialisation with pre_create_cas_dirs=true killed before mutating call #{k} of {total}");
+        match real::open_cas::<K>(&dir, &conf) {
+            Err(e) => out.push(("open-after-killed-precreation-failed".into(), format!("{desc}: {e}"))),
+            Ok(cas) => {
+                let stored = std::fs::read_to_string(dir.join("db_settings.json")).unwrap_or_default();
+                if stored.contains("\"dir_tree_is_pre_created\":true") {
+                    let leaves = Image::load(&dir.join("cas")).dirs.iter().filter(|d| d.matches('/').count() == 1).count();
+                    if leaves != 65_536 {
+                        out.push(("precreated-flag-untruthful".into(), format!("{desc}: settings say the tree is pre-created but only {leaves} of 65536 leaf directories exist")));
+                    }
+                }
+                for (i, c) in [crate::keys::C_X, crate::keys::C_Y, crate::keys::C_L, crate::keys::C_H, crate::keys::C_E, crate::keys::C_Z].iter().enumerate() {
+                    let data = crate::keys::content(*c);
+                    let key = format!("k{i}");
+                    if let Err(e) = real::put_chunks(&cas, key.clone(), &[data], true) {
+                        out.push(("put-after-killed-precreation-failed".into(), format!("{desc}: put of content {} failed: {e}", crate::keys::content_name(*c))));
+                        break;
+                    }
+                    if cas.get(&key).ok().flatten().as_deref() != Some(data) {
+                        out.push(("read-after-killed-precreation".into(), format!("{desc}: content {} does not read back", crate::keys::content_name(*c))));
+                        break;
+                    }
+                }
+            }
+        }
+        util::rm_rf(&dir);
+        if out.len() > 3 {
+            break;
+        }
+    }
+    out
+}
+
 // ---------------------------------------------------------------- C11
 
 #[derive(Clone)]
@@ -558,13 +631,17 @@ pub fn run(tier: &str, slice: (u64, u64), _seed: u64, prop: &str) -> WorkerResul
                 push(&mut res, "C19", o, d, c);
             }
         }
+        // every worker takes its share of the kill points
+        for (o, d) in c19_precreate_crash(slice, &mut res) {
+            push(&mut res, "C19", o, d, json!({"engine": "open", "kind": "c19-precreate-crash"}));
+        }
         if mine(&mut j) {
             for (o, d) in c19_precreate(&mut res) {
                 push(&mut res, "C19", o, d, json!({"engine": "open", "kind": "c19-precreate"}));
             }
         }
         if slice.0 == 0 {
-            res.completed.push(format!("C19: all 25 pairs (N_create, N_open) over {{1,2,3,4,10000}} x {} histories (incl. un-replayed WAL tails); stored versions x 3 N pairs x histories; pre-created vs lazy tree x reopen flag (4 combinations)", hs.len()));
+            res.completed.push(format!("C19: all 25 pairs (N_create, N_open) over {{1,2,3,4,10000}} x {} histories (incl. un-replayed WAL tails); stored versions x 3 N pairs x histories; pre-created vs lazy tree x reopen flag (4 combinations); first-time initialisation with a pre-created tree really killed before ~35 selected calls (first/last/middle mkdirs, every call after the loop); two first opens racing with different num_ops_per_wal", hs.len()));
         }
     } else {
         for (label, n, h) in stores() {
@@ -614,6 +691,11 @@ pub fn replay(case: &Value) -> Vec<Violation> {
         "c19" => {
             let h = &histories()[case["hist"].as_u64().unwrap() as usize];
             for (o, d) in c19_case(case["n_create"].as_u64().unwrap(), case["n_open"].as_u64().unwrap(), case["version"].as_u64(), h, &mut res) {
+                out.push(Violation::new(&["C19"], &o, d));
+            }
+        }
+        "c19-precreate-crash" => {
+            for (o, d) in c19_precreate_crash((0, 1), &mut res) {
                 out.push(Violation::new(&["C19"], &o, d));
             }
         }
